@@ -12,6 +12,9 @@ import Nstd.Args.Model
                 startargvz | list ;  env = `-` | `khex=vhex,...`
     io <streams> <n> <seed> <code>          → io ok=1 pipes=<p>
     exit <code>                             → exit ok=1
+    p <op> ...                              → p ok=<0|1> st=<running><out><err><in>      (one Process object)
+         op = new | start <code> | open <mask> <code> | join | kill | close <mask> | running | read3 <mask>
+    killtest <mask>                         → kill ok=1
 
   The harness prints the same prefix followed by ` | <what the kernel delivered>`; that part is
   judged by the Python reference only (the model stops at execvpe/pipe).
@@ -89,10 +92,8 @@ def runOp (form : String) (streams : Nat) (env : List (Str × Str)) (ws : List S
     | some none => some "FAULT"
     | some (some e) => some (showExec e)
 
-def stepLine (st : Unit) (ws : List String) : Unit × String :=
-  (st,
+def stepLine' (ws : List String) : String :=
     match ws with
-    | ["reset"] => "ready"
     | "args" :: o :: words =>
       match parseOpts o, words.mapM fromHex with
       | some opts, some wl =>
@@ -120,8 +121,37 @@ def stepLine (st : Unit) (ws : List String) : Unit × String :=
       match code.toNat? with
       | some _ => "exit ok=1"
       | none => "bad-op"
-    | _ => "bad-op")
+    | ["killtest", m] =>
+      match m.toNat? with
+      | some _ => "kill ok=1"
+      | none => "bad-op"
+    | _ => "bad-op"
+
+def b01 (b : Bool) : String := if b then "1" else "0"
+
+def showProc (r : Bool) (p : Proc) : String :=
+  s!"p ok={b01 r} st={b01 p.running}{b01 p.out}{b01 p.err}{b01 p.inp}"
+
+def parsePOp : List String → Option POp
+  | ["new"] => some .destroy
+  | ["start", c] => c.toNat?.map (fun _ => .start)
+  | ["open", m, c] => do let m ← m.toNat?; let _ ← c.toNat?; pure (.openp m)
+  | ["join"] => some .join
+  | ["kill"] => some .kill
+  | ["close", m] => m.toNat?.map .close
+  | ["running"] => some .isRunning
+  | ["read3", m] => m.toNat?.map .read3
+  | _ => none
+
+def stepLine (st : Proc) (ws : List String) : Proc × String :=
+  match ws with
+  | ["reset"] => (Proc.init, "ready")
+  | "p" :: rest =>
+    match parsePOp rest with
+    | none => (st, "bad-op")
+    | some op => let (st', r) := st.step op; (st', showProc r st')
+  | _ => (st, stepLine' ws)
 
 end Nstd.Args
 
-def main : IO Unit := Nstd.Common.ioLoop () Nstd.Args.stepLine
+def main : IO Unit := Nstd.Common.ioLoop Nstd.Args.Proc.init Nstd.Args.stepLine
